@@ -1745,7 +1745,7 @@ MANIFEST = {
     "category": "proof",
     "level": "proof for control flow given oracle answers; residuals sampled",
     "design_ref": "DESIGN.md 2.16",
-    "text": "Lean 4 theorems (74) over executable models, as coded, of Constraint::project / isSatisfied, ProjectedStateSpace::"
+    "text": "Lean 4 theorems (77) over executable models, as coded, of Constraint::project / isSatisfied, ProjectedStateSpace::"
             "discreteGeodesic, ConstrainedStateSpace::interpolate / geodesicInterpolate, ConstrainedMotionValidator::checkMotion (both "
             "forms, after a7ee00eca), ProjectedStateSampler; AtlasStateSpace::discreteGeodesic, TangentBundleStateSpace::"
             "discreteGeodesic (after the F175 repair 2365cedab) / project / geodesicInterpolate (after the F74 fix 8af6fc6c7), "
